@@ -137,6 +137,17 @@ double DownhillSimplexMethod::doStep()
     }
   }
 
+  // The ranking may have changed during this step: the stop condition and
+  // the reported point must refer to the current simplex.
+  for (unsigned int i = 0; i < mpts; i++)
+  {
+    if (y_[i] < y_[iLowest_])
+      iLowest_ = i;
+    if (y_[i] > y_[iHighest_])
+      iHighest_ = i;
+  }
+  getParameters_() = simplex_[iLowest_];
+
   return y_[iLowest_];
 }
 
